@@ -40,12 +40,35 @@ def library_paths(ctx):
     return out
 
 
+def reused_tracer_paths(ctx, nprog):
+    """paths produced by ONE tracer instance reused over a sequence of kernels, some of which fail (a path
+    produced in any way must be well formed; the history is part of the replay)"""
+    S = tweezer_prog.harness_spec()
+    out, ti, hist = [], tc.new_tracer(S), []
+    for i in range(nprog):
+        if i % 12 == 0:
+            ti, hist = tc.new_tracer(S), []
+        prog = tweezer_prog.gen_prog(ctx.rng, p_err=0.45)
+        try:
+            m = kernels.define(prog.src)["main"]
+        except Exception:
+            continue
+        for args in prog.arg_tuples[:2]:
+            st, r = tc.run_impl(m, args, tracer=ti)
+            hist.append({"src": prog.src, "args": repr(args)})
+            ctx.hist("reused tracer", st)
+            if st == "ok":
+                out.append(({"history_on_one_tracer": list(hist[-6:])}, r))
+    return out
+
+
 def run(ctx):
     from bloqade.shuttle.codegen import taskgen as T
     ctx.rule = ("paths traced from generated kernels (loops, branches, helpers, closures, all argument tuples on which tracing succeeds), "
                 "from the library tweezer kernels with enumerated arguments, and the reversal of each; non-trivial = distinct paths with a switch")
     corpus = [("generated", {"src": s, "args": repr(a)}, r) for s, a, r in tc.traced_corpus(ctx, ctx.pick(250, 3000), p_err=0.05)]
     corpus += [("library:" + n, {"kernel": n, "args": a}, r) for n, a, r in library_paths(ctx)]
+    corpus += [("reused-tracer", rep, r) for rep, r in reused_tracer_paths(ctx, ctx.pick(120, 1200))]
     cases = []
     for kind, rep, p in corpus:
         for which, q in (("traced", p), ("reversed", T.reverse_path(p))):
@@ -97,6 +120,17 @@ def replay(data):
     from bloqade.shuttle.codegen import taskgen as T
     from kirin.dialects import ilist
     inp = data["input"]
+    if "history_on_one_tracer" in inp:
+        S = tweezer_prog.harness_spec()
+        ti, last = tc.new_tracer(S), None
+        for h in inp["history_on_one_tracer"]:
+            m = kernels.define(h["src"])["main"]
+            last = tc.run_impl(m, eval(h["args"], {"slice": slice, "IList": ilist.IList}), tracer=ti)
+        if last is None or last[0] != "ok":
+            return False, "last call of the history does not produce a path now"
+        q = last[1] if inp.get("which") == "traced" else T.reverse_path(last[1])
+        why = tc.wf_py(tc.abstract_path(q))
+        return why is not None, why or "well formed"
     if "src" not in inp:
         return True, "library-kernel replay: re-run bin/check C11: " + str(data.get("what"))
     S = tweezer_prog.harness_spec()
